@@ -469,9 +469,15 @@ func nextBlueGreenTask(reason string, currentTask v1beta1.FinalisingStepType) v1
 	}
 	// find next task
 	for i := range taskSequence {
-		if currentTask == taskSequence[i] && i < len(taskSequence)-1 {
-			return taskSequence[i+1]
+		if currentTask == taskSequence[i] {
+			if i < len(taskSequence)-1 {
+				return taskSequence[i+1]
+			}
+			return v1beta1.FinalisingStepTypeEnd
 		}
 	}
-	return v1beta1.FinalisingStepTypeEnd
+	// currentTask is not part of this sequence: the finalising reason changed on the way
+	// (e.g. the Rollout was deleted while the success path was at RouteTrafficToNew);
+	// nothing of this sequence has been done yet, so start it from the beginning
+	return taskSequence[0]
 }
